@@ -498,6 +498,9 @@ class Vec:
             return Vec(r)
         return r
 
+    def __setitem__(self, i, v):
+        self.items[i] = v
+
     @property
     def shape(self):
         return (len(self.items),)
@@ -529,6 +532,41 @@ class Vec:
 
     def __sub__(self, o):
         return self._cmp(o, operator.sub)
+
+
+class IntVec(Vec):
+    """a NumPy array of an INTEGER element type: what is assigned to an element is truncated towards zero
+    (NumPy's conversion of a real number to an integer element; validated against NumPy)"""
+
+    def __setitem__(self, i, v):
+        if isinstance(v, bool) or isinstance(v, int):
+            self.items[i] = v
+            return
+        if v >= 0:
+            self.items[i] = v.__floor__()
+        else:
+            self.items[i] = -((-v).__floor__())
+
+    def __getitem__(self, i):
+        r = self.items[i]
+        if isinstance(i, slice):
+            return IntVec(r)
+        return r
+
+
+def _fake_array_items(x):
+    """(items, is integer typed) of a 1-d array handed out by fakeh5, else None"""
+    if isinstance(x, _np.ndarray) or not (hasattr(x, "tolist") and hasattr(x, "dtype")):
+        return None
+    items = x.tolist()
+    if not isinstance(items, list) or any(isinstance(e, list) for e in items):
+        return None
+    dt = getattr(x.dtype, "dt", x.dtype)
+    try:
+        is_int = bool(_np.issubdtype(_np.dtype(dt), _np.integer))
+    except Exception:  # noqa
+        is_int = False
+    return items, is_int
 
 
 class NpShim:
@@ -568,9 +606,13 @@ class NpShim:
     @staticmethod
     def array(x, *a, **kw):
         if isinstance(x, Vec):
-            return x
+            return type(x)(x.items)               # np.array copies
         if isinstance(x, (list, tuple)) and any(isinstance(e, Q) for e in x):
             return Vec(x)
+        fa = _fake_array_items(x)
+        if fa is not None and not a and not kw:
+            # a row read from a (fake) dataset: the copy inherits its element type
+            return IntVec(fa[0]) if fa[1] else Vec(fa[0])
         return _np.array(x, *a, **kw)
 
     @staticmethod
@@ -653,6 +695,20 @@ def validate_npshim_and_q():
                     if bool(shim.isclose(qa, qb)) != bool(_np.isclose(fa, fb)):
                         raise AssertionError("isclose mismatch %r %r" % (fa, fb))
                     n += 9
+    # integer-typed arrays truncate what is assigned to an element, float-typed ones keep it
+    for d in dens:
+        for a in nums:
+            iv, fv = IntVec([7, 8]), Vec([Q(7), Q(8)])
+            ia, fa_ = _np.array([7, 8]), _np.array([7.0, 8.0])
+            iv[0] = Q(a, d)
+            ia[0] = a / d
+            fv[1] = Q(a, d)
+            fa_[1] = a / d
+            iv[1] += Q(a, d)
+            ia[1] += _np.int64(0) if False else 0       # (in-place add of a float to an int array is refused by NumPy)
+            if iv[0] != int(ia[0]) or float(fv[1]) != float(fa_[1]):
+                raise AssertionError("IntVec / Vec element assignment differs from NumPy for %s/%s" % (a, d))
+            n += 2
     for si in (0.125, 0.25, 0.5, 1, 2, 4, 8):
         for a in nums:
             q = Q(a, 16) / Q._coerce(float(si))
